@@ -286,8 +286,8 @@ func (r *runner) execState(s *sim.Env, root int, cells []Cell) {
 	}
 	// ---------------- hooks
 	sort.SliceStable(hook, func(a, b int) bool {
-		oa := !hook[a].Breaker && hook[a].Esm == "off"
-		ob := !hook[b].Breaker && hook[b].Esm == "off"
+		oa := !hook[a].Breaker && hook[a].Esm == "off" && len(hook[a].Off) == 0
+		ob := !hook[b].Breaker && hook[b].Esm == "off" && len(hook[b].Off) == 0
 		return oa && !ob
 	})
 	ref = map[string]int{}
@@ -299,13 +299,20 @@ func (r *runner) execState(s *sim.Env, root int, cells []Cell) {
 			panic(fmt.Sprintf("hook controls %+v: %v", c, err))
 		}
 		f.armHook(e, c.Hook)
+		for range c.Off { // the collateral (CMDX) price the liquidation paths value the position with
+			if c.Pm == "missing" {
+				PriceMissing(e, f.CMDX)
+			} else {
+				PriceActive(e, f.CMDX, false)
+			}
+		}
 		pre, vpre := e.Digest(), f.HookViewOf(e, app)
 		res := f.runHook(e, c.Hook)
 		post, vpost := e.Digest(), f.HookViewOf(e, app)
-		args := map[string]interface{}{"m": c.M, "hook": c.Hook, "app": c.App, "breaker": c.Breaker, "esm": c.Esm, "ref": ref[c.Hook]}
+		args := map[string]interface{}{"m": c.M, "hook": c.Hook, "app": c.App, "breaker": c.Breaker, "esm": c.Esm, "off": c.Off, "pm": c.Pm, "ref": ref[c.Hook]}
 		id := r.lg.Add(root, r.run, "Hook", args, rj(res), map[string]interface{}{"pre": pre, "post": post,
 			"seizedPre": vpre.Seized, "seizedPost": vpost.Seized, "aucPre": vpre.Auctions, "aucPost": vpost.Auctions})
-		if !c.Breaker && c.Esm == "off" {
+		if !c.Breaker && c.Esm == "off" && len(c.Off) == 0 {
 			ref[c.Hook] = id
 			args["ref"] = id
 		}
